@@ -33,11 +33,18 @@ LOAD = dict(pkg="./cache/disk", test="TestVerifLoad", name="load", diff=True, al
 
 CRASH = dict(pkg="./cache/disk", test="TestVerifCrash", name="crash", diff=False)
 
-SCHED = dict(pkg="./cache/disk", test="TestVerifSchedules", name="sched", diff=True, race=True, also=["C07", "C03"])
+SCHED = dict(pkg="./cache/disk", test="TestVerifSchedules", name="sched", diff=True, race=True, also=["C07", "C03", "C04"])
 
 SRVHARD = dict(pkg="./server", test="TestVerifServerHardLimit", name="srvhard", diff=False)
+SLOWPATH = dict(pkg="./cache/disk", test="TestVerifSlowPathAcrossModes", name="slowpath", diff=False)
 HARDLAG = dict(pkg="./cache/disk", test="TestVerifHardLimitBacklog", name="hardlag", diff=False)
+SRVBATCH = dict(pkg="./server", test="TestVerifServerBatchMany", name="srvbatch", diff=False)
+SRVINLINE = dict(pkg="./server", test="TestVerifServerInlining", name="srvinline", diff=True)
+SRVWRITETHROUGH = dict(pkg="./server", test="TestVerifServerWriteThrough", name="srvwritethrough", diff=False)
+UPLOADLEAK = dict(pkg="./server", test="TestVerifServerRefusedUploadLeaks", name="uploadleak", diff=False)
+SRVBACKENDWRITE = dict(pkg="./server", test="TestVerifServerWriteExistingInBackend", name="srvbackendwrite", diff=False)
 SRVPOOL = dict(pkg="./server", test="TestVerifServerFailedReadThenOverlappingReads", name="srvpool", diff=False)
+SRVPROXYLIMIT = dict(pkg="./server", test="TestVerifServerProxyLimit", name="srvproxylimit", diff=False)
 SRVRTHARD = dict(pkg="./server", test="TestVerifServerReadThroughHardLimit", name="srvrthard", diff=False)
 
 GRPCPROXY = dict(pkg="./cache/grpcproxy", test="TestVerifGrpcProxyRoundTrip", name="grpcproxy", diff=False)
@@ -78,7 +85,7 @@ PROPS = {
         level_text="Theorems on M1's Reserve: refusal iff current + backlog + size exceeds the hard limit, refusal leaves the state unchanged, retry succeeds after the backlog drained, no refusal when the option is off. Server-level oracle: with the cache filled to the limit every write path (HTTP, BatchUpdateBlobs, ByteStream.Write, UpdateActionResult with inlined blobs, FetchBlob; both storage modes) answers 507 / RESOURCE_EXHAUSTED, stores and evicts nothing, reads keep working.",
         level_note=NOTE + "the uint64 sum is modelled exactly.", technique=TECH),
     "C02": dict(
-        lean="BR.Props.C02", runs=[BLOB, BLOBREAL, DISK, READTHROUGH, SRVREAD], trusted_base=COMMON_TB + [
+        lean="BR.Props.C02", runs=[BLOB, BLOBREAL, DISK, READTHROUGH, SLOWPATH, SRVREAD, SRVPOOL, SRVBATCH], trusted_base=COMMON_TB + [
             "zstd codecs (klauspost, libzstd) enter the theorems as a parameter satisfying Codec.Lawful; SHA-256 as an opaque function"],
         assumptions=["offset >= 0 (enforced by disk.get before the readers are called)"],
         level_text="Theorems on M2 (casblob): for every conformant file (any chunk size, any frames decoding to the chunks) and every offset below the size, both readers return exactly data[offset:] (raw: the bytes; zstd: a stream decoding to them); the writer's output is conformant; readers are total.",
@@ -88,21 +95,21 @@ PROPS = {
         level_text="Header encode/parse round trip and reader conformance theorems on M2; layout constants, file-name shapes and regexps regenerated from the source and compared by Bridge theorems; files from an independent encoder/reader in the harness; objects stored through the real S3 and HTTP back-end clients into in-process servers must appear under the published names for several prefix shapes and read back unchanged.",
         level_note=NOTE + "published layout written once in Lean as the specification.", technique=TECH),
     "C01": dict(
-        lean="BR.Props.C01", runs=[BLOB, BLOBREAL, DISK, SRVWRITE], trusted_base=COMMON_TB + ["SHA-256 as an opaque function H; zstd codec as a parameter"],
+        lean="BR.Props.C01", runs=[BLOB, BLOBREAL, DISK, SRVWRITE, SRVBATCH], trusted_base=COMMON_TB + ["SHA-256 as an opaque function H; zstd codec as a parameter"],
         assumptions=[],
         level_text="Theorems on M2/M4: WriteAndClose / Put acknowledge iff the delivered bytes have the declared length and hash and the stream ended cleanly; a rejected upload leaves index and directory unchanged; per-path corollaries for the server front ends.",
         level_note=NOTE + "server paths are tied by the server-level correspondence runs.", technique=TECH),
     "C04": dict(
-        lean="BR.Props.C04", runs=[DISK, F14, LOAD], trusted_base=COMMON_TB, assumptions=["tempfile.Create returns a name not present in the directory (O_EXCL)"],
+        lean="BR.Props.C04", runs=[DISK, F14, LOAD, SCHED], trusted_base=COMMON_TB, assumptions=["tempfile.Create returns a name not present in the directory (O_EXCL)"],
         level_text="Invariant on M4 proved for every sequential history with failures injected at every stage: the regular files are exactly the files of indexed entries plus those queued for removal, each with the recorded length; after draining, directory = index.",
         level_note=NOTE + "concurrent histories via the atomic-lock-region assumption (C07).", technique=TECH),
     "C12": dict(
-        lean="BR.Props.C12", runs=[DISK, READTHROUGH, GRPCPROXY, S3PROXY, HTTPPROXY, AZBLOB], trusted_base=COMMON_TB + ["transport code of the concrete back ends (net/http, grpc, minio, azure SDK) is not modelled"],
+        lean="BR.Props.C12", runs=[DISK, READTHROUGH, GRPCPROXY, S3PROXY, HTTPPROXY, AZBLOB, SRVPROXYLIMIT, SRVWRITETHROUGH], trusted_base=COMMON_TB + ["transport code of the concrete back ends (net/http, grpc, minio, azure SDK) is not modelled"],
         assumptions=["the back end is trusted for content it completely delivers"],
         level_text="Theorems on M4's proxy read-through: a hit carries exactly the back end's bytes with the announced size; every fault (error, not found, short/long stream, wrong or unknown size, oversize) yields a miss or an error, stores nothing and releases the reservation; each accepted upload is forwarded once.",
         level_note=NOTE + "partial: back-end transport libraries outside the model.", technique=TECH),
     "C18": dict(
-        lean="BR.Props.C18", runs=[DISK, SRVLIMIT], trusted_base=COMMON_TB, assumptions=[],
+        lean="BR.Props.C18", runs=[DISK, SRVLIMIT, SRVPROXYLIMIT], trusted_base=COMMON_TB, assumptions=[],
         level_text="Theorems on M4: Put refuses sizes above max_blob_size with a client error and unchanged state, accepts the limit itself; nothing above max_proxy_blob_size is fetched, cached or reported present on the strength of the back end.",
         level_note=NOTE + "handler-level guards tied by server correspondence runs.", technique=TECH),
     "C13": dict(
@@ -115,11 +122,11 @@ PROPS = {
         level_text="Theorems on M8: a hit implies every referenced blob (tree blobs, tree root/child files, non-inlined output files, stdout, stderr) is present; absence yields a miss, never an error or partial result; all present yields a hit. Server-level oracle over every subset of absent blobs; the decision compared with the model.",
         level_note=NOTE + "the fail-fast presence check is C10's model; recency refresh of dependencies is checked at the disk level.", technique=TECH),
     "C11": dict(
-        lean="BR.Props.C11", runs=[SRVAC, SRVACDEPS], trusted_base=["protobuf / protojson codecs (round-trip law assumed, real ones exercised by the harness)"], assumptions=[],
+        lean="BR.Props.C11", runs=[SRVAC, SRVACDEPS, SRVINLINE], trusted_base=["protobuf / protojson codecs (round-trip law assumed, real ones exercised by the harness)"], assumptions=[],
         level_text="Theorems on M8's validator: each invalid class is rejected wherever it occurs, acceptance iff every component is well formed; validator compared with validate.ActionResult on generated messages; server oracle: rejected => nothing served, accepted => served equal modulo worker name, JSON = proto, latest wins.",
         level_note=NOTE + "the validator's verdicts are compared message by message.", technique=TECH),
     "C14": dict(
-        lean="BR.Props.C14", runs=[BLOB, PARSERS, HANDLERS, BYTESTREAM, FDLEAK], trusted_base=COMMON_TB + ["third-party decoders, the Go runtime and grpc-go are outside the model"],
+        lean="BR.Props.C14", runs=[BLOB, PARSERS, HANDLERS, BYTESTREAM, FDLEAK, UPLOADLEAK], trusted_base=COMMON_TB + ["third-party decoders, the Go runtime and grpc-go are outside the model"],
         assumptions=["memory exhaustion and real-time hangs cannot be exhibited by the model"],
         level_text="Partial. Theorems: casblob readers total on every byte string, resource-name parsers total, validator and GetTree walk handle absent sub-messages, Write answers every message sequence. Harness: every handler called in-process under recover with absent sub-messages and ill-formed stored blobs; mutated stored files; goroutine/reservation leak oracle.",
         level_note=NOTE + "partial: goroutine life cycle, third-party panics and resource exhaustion are checked by oracle only.", technique=TECH),
@@ -128,7 +135,7 @@ PROPS = {
         level_text="Theorems on M3/M4: LookupKey injective in (key space, hash), file paths of different key spaces disjoint, mangled keys equal iff (key, instance) equal, the HTTP path prefix is the gRPC instance name; server oracle over instance names x both front ends x mangling on/off; URL parser compared with the model.",
         level_note=NOTE + "no-collision hypothesis explicit.", technique=TECH),
     "C16": dict(
-        lean="BR.Props.C16", runs=[BYTESTREAM, PARSERS], trusted_base=["grpc-go stream delivery"], assumptions=[],
+        lean="BR.Props.C16", runs=[BYTESTREAM, PARSERS, SRVBACKENDWRITE], trusted_base=["grpc-go stream delivery"], assumptions=[],
         level_text="Theorems on M10: early return for existing blobs, failure for non-zero first offset / bad or empty name / over-limit size / more or fewer bytes than declared, success commits exactly the declared size, parsers accept every conformant name with any instance prefix and trailing metadata; the real Write compared with writeRPC on generated message sequences.",
         level_note=NOTE + "the three-goroutine schedule is abstracted to the message sequence.", technique=TECH),
     "C10": dict(
@@ -148,7 +155,7 @@ PROPS = {
         level_text="Theorems on M2/M6/M1: every file image a compressed upload can leave at a kill, except the final one of a successful write, is refused by readHeader and so by both readers (absent or complete, for all sizes, chunk sizes and streams); the final image is served identically at every offset; restart on any set of files re-establishes the accounting invariant and keeps every file tracked; a raw file (AC, RAW, uncompressed CAS) is adopted with its current length (F16). The real Put is interrupted at generated stream offsets, at the gate between file completion and index insertion and after the acknowledgement; every image is restarted in both storage modes and read through every path.",
         level_note=NOTE + "partial: power-loss durability is outside the model; torn raw files are the recorded finding F16.", technique=TECH),
     "C07": dict(
-        lean="BR.Props.C07", runs=[SCHED, F14, SRVPOOL], trusted_base=COMMON_TB + ["each index-lock region is taken as atomic and memory as touched only inside lock regions; an open file keeps its content after unlink; tempfile.Create never returns a name in use (O_EXCL): assumptions of model M5, not conclusions"], assumptions=["schedules are interleavings at the verif yield points; finer interleavings inside a lock region are excluded by the mutex"],
+        lean="BR.Props.C07", runs=[SCHED, F14, SLOWPATH, SRVPOOL], trusted_base=COMMON_TB + ["each index-lock region is taken as atomic and memory as touched only inside lock regions; an open file keeps its content after unlink; tempfile.Create never returns a name in use (O_EXCL): assumptions of model M5, not conclusions"], assumptions=["schedules are interleavings at the verif yield points; finer interleavings inside a lock region are excluded by the mutex"],
         level_text="Theorems on M5 for every schedule of any number of uploads, reads, remover steps and file corruptions: the C03 index invariant holds after every step and exactly the uploads in flight hold reservations (so nothing stays reserved at quiescence); every read that returns data returns the complete bytes of one completed upload to the same key; the files on disk are exactly the files of the tracked entries plus the completed files of uploads that have not committed, with unique names (directory = index at quiescence). The real Put/Get/remover are driven along generated schedules through the yield points (a released segment must reach its next gate or finish) and compared with the model on read results, reservations, entry count and recency order; quiescence oracles for accounting and directory; thorough tier under the race detector.",
         level_note=NOTE + "partial: atomicity of lock regions and absence of data races are assumed by the model (race detector in the thorough tier).", technique=TECH),
 }
